@@ -23,7 +23,8 @@ Inductive guard :=
 | GReadOnlyUse    (* non-const by declaration but never written after initialisation *)
 | GNotInBuild     (* device / Geant4 / ROOT / VecGeom code that this build does not compile or cannot reach *)
 | GConstruction   (* const_cast used to build a reference/copy of per-stream data while it is constructed *)
-| GDebugUnguarded (* NOT guarded; test/debug-only tool that production front ends never attach *).
+| GDebugUnguarded (* NOT guarded; test/debug-only tool that production front ends never attach *)
+| GRacyReported   (* NOT properly guarded: reported finding (NOTES.md); change to GMutex once repaired *).
 
 Definition row := (string * string * guard * string)%type.
 
@@ -68,8 +69,8 @@ Definition guard_table : list row :=
     ("celeritas/user/ActionDiagnostic.cc", "initialize_mutex", GMutex, "guards the lazy construction of store_ in begin_run_impl");
     ("celeritas/user/ActionDiagnostic.cc", "ActionDiagnostic::action_reg_", GMutex, "assigned under initialize_mutex, once");
     ("celeritas/user/ActionDiagnostic.cc", "ActionDiagnostic::particle_", GMutex, "assigned under initialize_mutex, once");
-    ("celeritas/user/ActionDiagnostic.cc", "ActionDiagnostic::store_", GMutex,
-     "assigned under initialize_mutex, once (double-checked: the first `if (!store_)` is outside the lock -- see NOTES.md; ThreadSanitizer is the judge)");
+    ("celeritas/user/ActionDiagnostic.cc", "ActionDiagnostic::store_", GRacyReported,
+     "assigned under initialize_mutex, once, BUT the first `if (!store_)` is outside the lock (double-checked locking on a non-atomic object): ThreadSanitizer reports it, finding F-C07-1 in NOTES.md");
     ("celeritas/user/ActionDiagnostic.hh", "store_", GPerStream,
      "StreamStore: step() creates/accesses only the element of its own StreamId");
     ("celeritas/user/StepDiagnostic.hh", "store_", GPerStream,
@@ -108,6 +109,8 @@ Definition stale_rows : list (string * string) :=
   map row_key (filter (fun r => negb (existsb (fun c => key_eqb (cell_key c) (row_key r)) cells)) guard_table).
 Definition guard_table_current_b : bool :=
   forallb (fun r => existsb (fun c => key_eqb (cell_key c) (row_key r)) cells) guard_table.
+Definition racy_reported : list (string * string) :=
+  map row_key (filter (fun r => match snd (fst r) with GRacyReported => true | _ => false end) guard_table).
 (** the only cells accepted as NOT guarded are debug-only tools *)
 Definition debug_unguarded : list (string * string) :=
   map row_key (filter (fun r => match snd (fst r) with GDebugUnguarded => true | _ => false end) guard_table).
